@@ -73,6 +73,28 @@ type c19AnnoScenario struct {
 
 	StaleAnno int `json:"stale_anno"` // pre-existing max-available-ip annotation (0 = none)
 	Rounds    int `json:"rounds"`
+
+	// Resize: the same instance (same instance id, same node) is stopped, changed to
+	// another instance type and started again: the instance-type label changes and steps
+	// 1-3 run once more; everything advertised must then fit the NEW type.
+	Resize *c19AnnoVec `json:"resize,omitempty"`
+}
+
+// c19AnnoVec is an instance-type description.
+type c19AnnoVec struct {
+	EniQuantity      int  `json:"eni_quantity"`
+	EniTotalQuantity int  `json:"eni_total_quantity"`
+	V4               int  `json:"v4_per_eni"`
+	V6               int  `json:"v6_per_eni"`
+	Eri              int  `json:"eri_quantity"`
+	Trunk            bool `json:"trunk_supported"`
+}
+
+func (v c19AnnoVec) instanceType(id string) ecs.InstanceType {
+	return ecs.InstanceType{
+		InstanceTypeId: id, EniQuantity: v.EniQuantity, EniTotalQuantity: v.EniTotalQuantity,
+		EniPrivateIpAddressQuantity: v.V4, EniIpv6AddressQuantity: v.V6, EriQuantity: v.Eri, EniTrunkSupported: v.Trunk,
+	}
 }
 
 func c19GenAnno(t *rapid.T) c19AnnoScenario {
@@ -119,6 +141,25 @@ func c19GenAnno(t *rapid.T) c19AnnoScenario {
 		s.StaleAnno = rapid.SampledFrom([]int{1, 7, 99999}).Draw(t, "staleAnno")
 	}
 	s.Rounds = rapid.IntRange(1, 2).Draw(t, "rounds")
+	if !s.LinJun && rapid.SampledFrom([]bool{false, true, true}).Draw(t, "resize") {
+		b := c19AnnoVec{}
+		if rapid.Bool().Draw(t, "resizeSmaller") {
+			b.EniQuantity = rapid.IntRange(1, s.EniQuantity).Draw(t, "bEniQuantity")
+			b.EniTotalQuantity = b.EniQuantity + rapid.IntRange(0, s.EniTotalQuantity-s.EniQuantity).Draw(t, "bMembers")
+			b.V4 = rapid.IntRange(1, s.V4).Draw(t, "bV4")
+			b.V6 = rapid.SampledFrom([]int{0, b.V4, s.V6}).Draw(t, "bV6")
+			b.Eri = rapid.IntRange(0, s.Eri).Draw(t, "bEri")
+			b.Trunk = s.Trunk && rapid.Bool().Draw(t, "bTrunk")
+		} else {
+			b.EniQuantity = rapid.IntRange(1, 32).Draw(t, "bEniQuantity")
+			b.EniTotalQuantity = b.EniQuantity + rapid.IntRange(0, 120).Draw(t, "bMembers")
+			b.V4 = rapid.IntRange(1, 50).Draw(t, "bV4")
+			b.V6 = rapid.SampledFrom([]int{0, b.V4, 1}).Draw(t, "bV6")
+			b.Eri = rapid.IntRange(0, 4).Draw(t, "bEri")
+			b.Trunk = rapid.Bool().Draw(t, "bTrunk")
+		}
+		s.Resize = &b
+	}
 	return s
 }
 
@@ -164,7 +205,8 @@ func c19RunAnno(c *vt.Ctx, s c19AnnoScenario) {
 	aliyunClient.LimitProviders["ecs"] = aliyunClient.NewECSLimitProvider()
 	c19DrainNotify()
 
-	const typeID = "ecs.c19.large"
+	const typeID, typeB = "ecs.c19.large", "ecs.c19b.large"
+	vecA := c19AnnoVec{s.EniQuantity, s.EniTotalQuantity, s.V4, s.V6, s.Eri, s.Trunk}
 	cloud := &c19Cloud{eflo: &eflo.Content{LeniQuota: s.LeniQuota, LniSipQuota: s.LniSipQuota}}
 	for i := 0; i < s.Noise; i++ {
 		cloud.types = append(cloud.types, ecs.InstanceType{
@@ -172,10 +214,10 @@ func c19RunAnno(c *vt.Ctx, s c19AnnoScenario) {
 			EniPrivateIpAddressQuantity: 100, EniIpv6AddressQuantity: 100, EriQuantity: 8, EniTrunkSupported: true,
 		})
 	}
-	cloud.types = append(cloud.types, ecs.InstanceType{
-		InstanceTypeId: typeID, EniQuantity: s.EniQuantity, EniTotalQuantity: s.EniTotalQuantity,
-		EniPrivateIpAddressQuantity: s.V4, EniIpv6AddressQuantity: s.V6, EriQuantity: s.Eri, EniTrunkSupported: s.Trunk,
-	})
+	cloud.types = append(cloud.types, vecA.instanceType(typeID))
+	if s.Resize != nil {
+		cloud.types = append(cloud.types, s.Resize.instanceType(typeB))
+	}
 
 	k8sNode := &corev1.Node{
 		ObjectMeta: metav1.ObjectMeta{
@@ -226,220 +268,246 @@ func c19RunAnno(c *vt.Ctx, s c19AnnoScenario) {
 		}
 	}
 
-	// ---- 1. node appears
-	reconcileOnce("first", true)
-	cr := &networkv1beta1.Node{}
-	if err := cl.Get(ctx, client.ObjectKey{Name: c19NodeName}, cr); err != nil {
-		c.Fatalf("Node CR not created: %v", err)
-	}
-	nc := cr.Spec.NodeCap
-	c.Trace("NodeCap %+v labels %v", nc, cr.Labels)
-
-	exclusive := terwayTypes.NodeExclusiveENIMode(k8sNode.Labels) == terwayTypes.ExclusiveENIOnly
-	slots, v4, memberRef, eri := s.EniQuantity-1, s.V4, 0, s.Eri
-	if s.Trunk {
-		memberRef = s.EniTotalQuantity - s.EniQuantity
-	}
-	if s.LinJun {
-		slots, v4, memberRef, eri = s.LeniQuota-1, s.LniSipQuota, 0, 0
-		c.Label("lingjun")
-	}
-	// the recorded capabilities are the base of everything downstream
-	if nc.Adapters-1 > slots || nc.IPv4PerAdapter > v4 || nc.MemberAdapterLimit > memberRef || nc.EriQuantity > eri ||
-		nc.Adapters < 0 || nc.IPv4PerAdapter < 0 || nc.MemberAdapterLimit < 0 || nc.EriQuantity < 0 {
-		c.Fatalf("NodeCap %+v exceeds the instance type (secondary slots %d, v4 %d, member limit %d, eri %d)", nc, slots, v4, memberRef, eri)
-	}
-	if !s.LinJun && nc.IPv6PerAdapter > s.V6 {
-		c.Fatalf("NodeCap.IPv6PerAdapter = %d exceeds %d", nc.IPv6PerAdapter, s.V6)
-	}
-	if !s.LinJun && eri > 0 && nc.EriQuantity > slots {
-		c.Fatalf("NodeCap.EriQuantity = %d exceeds the %d secondary slots", nc.EriQuantity, slots)
-	}
-
-	// ---- 2. the daemon fills ENISpec, flavor and status
-	rem := nc.Adapters - 1
-	if rem < 0 {
-		rem = 0
-	}
-	enableTrunk := s.WantTrunk && nc.MemberAdapterLimit > 0 && !exclusive && !s.LinJun
-	enableRdma := s.WantRdma > 0 && nc.EriQuantity > 0 && !s.LinJun
-	var flavor []networkv1beta1.Flavor
-	trunkSlots, rdmaSlots, stdSlots := 0, 0, 0
-	if enableTrunk && rem > 0 {
-		trunkSlots = 1
-		rem--
-		flavor = append(flavor, networkv1beta1.Flavor{NetworkInterfaceType: networkv1beta1.ENITypeTrunk,
-			NetworkInterfaceTrafficMode: networkv1beta1.NetworkInterfaceTrafficModeStandard, Count: 1})
-	}
-	if enableRdma && rem > 0 {
-		rdmaSlots = s.WantRdma
-		if rdmaSlots > nc.EriQuantity {
-			rdmaSlots = nc.EriQuantity
-		}
-		if rdmaSlots > rem {
-			rdmaSlots = rem
-		}
-		rem -= rdmaSlots
-		flavor = append(flavor, networkv1beta1.Flavor{NetworkInterfaceType: networkv1beta1.ENITypeSecondary,
-			NetworkInterfaceTrafficMode: networkv1beta1.NetworkInterfaceTrafficModeHighPerformance, Count: rdmaSlots})
-	}
-	stdSlots = rem * s.StdPct / 100
-	if s.Split && stdSlots >= 2 {
-		a := stdSlots / 2
-		flavor = append(flavor,
-			networkv1beta1.Flavor{NetworkInterfaceType: networkv1beta1.ENITypeSecondary, NetworkInterfaceTrafficMode: networkv1beta1.NetworkInterfaceTrafficModeStandard, Count: a},
-			networkv1beta1.Flavor{NetworkInterfaceType: networkv1beta1.ENITypeSecondary, NetworkInterfaceTrafficMode: networkv1beta1.NetworkInterfaceTrafficModeStandard, Count: stdSlots - a})
-		c.Label("flavor:split")
-	} else {
-		flavor = append(flavor, networkv1beta1.Flavor{NetworkInterfaceType: networkv1beta1.ENITypeSecondary,
-			NetworkInterfaceTrafficMode: networkv1beta1.NetworkInterfaceTrafficModeStandard, Count: stdSlots})
-	}
-	if k := s.Rotate % len(flavor); k > 0 {
-		flavor = append(append([]networkv1beta1.Flavor{}, flavor[k:]...), flavor[:k]...)
-	}
-	cr.Spec.ENISpec = &networkv1beta1.ENISpec{
-		EnableIPv4: true, EnableTrunk: enableTrunk, EnableERDMA: enableRdma,
-		VSwitchOptions: []string{"vsw-c19"}, SecurityGroupIDs: []string{"sg-c19"},
-	}
-	cr.Spec.Flavor = flavor
-	if err := cl.Update(ctx, cr); err != nil {
-		c.Fatalf("harness: update Node CR spec: %v", err)
-	}
 	trunkInUse := false
-	if len(s.ENIs) > 0 {
-		cr.Status.NetworkInterfaces = map[string]*networkv1beta1.NetworkInterface{}
-		for i, e := range s.ENIs {
-			ni := &networkv1beta1.NetworkInterface{
-				ID:                   fmt.Sprintf("eni-%d", i),
-				NetworkInterfaceType: []networkv1beta1.ENIType{networkv1beta1.ENITypeSecondary, networkv1beta1.ENITypeTrunk, networkv1beta1.ENITypeMember}[e.Type],
-				Status:               []string{aliyunClient.ENIStatusInUse, aliyunClient.ENIStatusAttaching, aliyunClient.ENIStatusDetaching, aliyunClient.ENIStatusDeleting}[e.Status],
-			}
-			if e.Type == 1 && e.Status == 0 {
-				trunkInUse = true
-			}
-			cr.Status.NetworkInterfaces[ni.ID] = ni
+	// one pass of steps 1-3 for the instance type v the node currently has
+	pass := func(name string, v c19AnnoVec, first bool) {
+		fatalf := func(f string, a ...any) { c.Fatalf(name+f, a...) }
+		// ---- 1. node appears
+		reconcileOnce(name+"first", true)
+		cr := &networkv1beta1.Node{}
+		if err := cl.Get(ctx, client.ObjectKey{Name: c19NodeName}, cr); err != nil {
+			fatalf("Node CR not created: %v", err)
 		}
-		if err := cl.Status().Update(ctx, cr); err != nil {
-			c.Fatalf("harness: update Node CR status: %v", err)
+		nc := cr.Spec.NodeCap
+		c.Trace("%sNodeCap %+v meta %+v labels %v", name, nc, cr.Spec.NodeMetadata, cr.Labels)
+
+		exclusive := terwayTypes.NodeExclusiveENIMode(k8sNode.Labels) == terwayTypes.ExclusiveENIOnly
+		slots, v4, memberRef, eri := v.EniQuantity-1, v.V4, 0, v.Eri
+		if v.Trunk {
+			memberRef = v.EniTotalQuantity - v.EniQuantity
+		}
+		if s.LinJun {
+			slots, v4, memberRef, eri = s.LeniQuota-1, s.LniSipQuota, 0, 0
+			c.Label("lingjun")
+		}
+		// the recorded capabilities are the base of everything downstream
+		if nc.Adapters-1 > slots || nc.IPv4PerAdapter > v4 || nc.MemberAdapterLimit > memberRef || nc.EriQuantity > eri ||
+			nc.Adapters < 0 || nc.IPv4PerAdapter < 0 || nc.MemberAdapterLimit < 0 || nc.EriQuantity < 0 {
+			fatalf("NodeCap %+v exceeds the instance type (secondary slots %d, v4 %d, member limit %d, eri %d)", nc, slots, v4, memberRef, eri)
+		}
+		if !s.LinJun && nc.IPv6PerAdapter > v.V6 {
+			fatalf("NodeCap.IPv6PerAdapter = %d exceeds %d", nc.IPv6PerAdapter, v.V6)
+		}
+		if !s.LinJun && eri > 0 && nc.EriQuantity > slots {
+			fatalf("NodeCap.EriQuantity = %d exceeds the %d secondary slots", nc.EriQuantity, slots)
+		}
+
+		// ---- 2. the daemon fills ENISpec, flavor and status
+		rem := nc.Adapters - 1
+		if rem < 0 {
+			rem = 0
+		}
+		enableTrunk := s.WantTrunk && nc.MemberAdapterLimit > 0 && !exclusive && !s.LinJun
+		enableRdma := s.WantRdma > 0 && nc.EriQuantity > 0 && !s.LinJun
+		var flavor []networkv1beta1.Flavor
+		trunkSlots, rdmaSlots, stdSlots := 0, 0, 0
+		if enableTrunk && rem > 0 {
+			trunkSlots = 1
+			rem--
+			flavor = append(flavor, networkv1beta1.Flavor{NetworkInterfaceType: networkv1beta1.ENITypeTrunk,
+				NetworkInterfaceTrafficMode: networkv1beta1.NetworkInterfaceTrafficModeStandard, Count: 1})
+		}
+		if enableRdma && rem > 0 {
+			rdmaSlots = s.WantRdma
+			if rdmaSlots > nc.EriQuantity {
+				rdmaSlots = nc.EriQuantity
+			}
+			if rdmaSlots > rem {
+				rdmaSlots = rem
+			}
+			rem -= rdmaSlots
+			flavor = append(flavor, networkv1beta1.Flavor{NetworkInterfaceType: networkv1beta1.ENITypeSecondary,
+				NetworkInterfaceTrafficMode: networkv1beta1.NetworkInterfaceTrafficModeHighPerformance, Count: rdmaSlots})
+		}
+		stdSlots = rem * s.StdPct / 100
+		if s.Split && stdSlots >= 2 {
+			a := stdSlots / 2
+			flavor = append(flavor,
+				networkv1beta1.Flavor{NetworkInterfaceType: networkv1beta1.ENITypeSecondary, NetworkInterfaceTrafficMode: networkv1beta1.NetworkInterfaceTrafficModeStandard, Count: a},
+				networkv1beta1.Flavor{NetworkInterfaceType: networkv1beta1.ENITypeSecondary, NetworkInterfaceTrafficMode: networkv1beta1.NetworkInterfaceTrafficModeStandard, Count: stdSlots - a})
+			c.Label("flavor:split")
+		} else {
+			flavor = append(flavor, networkv1beta1.Flavor{NetworkInterfaceType: networkv1beta1.ENITypeSecondary,
+				NetworkInterfaceTrafficMode: networkv1beta1.NetworkInterfaceTrafficModeStandard, Count: stdSlots})
+		}
+		if k := s.Rotate % len(flavor); k > 0 {
+			flavor = append(append([]networkv1beta1.Flavor{}, flavor[k:]...), flavor[:k]...)
+		}
+		cr.Spec.ENISpec = &networkv1beta1.ENISpec{
+			EnableIPv4: true, EnableTrunk: enableTrunk, EnableERDMA: enableRdma,
+			VSwitchOptions: []string{"vsw-c19"}, SecurityGroupIDs: []string{"sg-c19"},
+		}
+		cr.Spec.Flavor = flavor
+		if err := cl.Update(ctx, cr); err != nil {
+			fatalf("harness: update Node CR spec: %v", err)
+		}
+		if first && len(s.ENIs) > 0 {
+			cr.Status.NetworkInterfaces = map[string]*networkv1beta1.NetworkInterface{}
+			for i, e := range s.ENIs {
+				ni := &networkv1beta1.NetworkInterface{
+					ID:                   fmt.Sprintf("eni-%d", i),
+					NetworkInterfaceType: []networkv1beta1.ENIType{networkv1beta1.ENITypeSecondary, networkv1beta1.ENITypeTrunk, networkv1beta1.ENITypeMember}[e.Type],
+					Status:               []string{aliyunClient.ENIStatusInUse, aliyunClient.ENIStatusAttaching, aliyunClient.ENIStatusDetaching, aliyunClient.ENIStatusDeleting}[e.Status],
+				}
+				if e.Type == 1 && e.Status == 0 {
+					trunkInUse = true
+				}
+				cr.Status.NetworkInterfaces[ni.ID] = ni
+			}
+			if err := cl.Status().Update(ctx, cr); err != nil {
+				fatalf("harness: update Node CR status: %v", err)
+			}
+		}
+		if first && s.Prefer >= 0 {
+			cur := &corev1.Node{}
+			if err := cl.Get(ctx, client.ObjectKey{Name: c19NodeName}, cur); err != nil {
+				fatalf("harness: get node: %v", err)
+			}
+			if cur.Annotations == nil {
+				cur.Annotations = map[string]string{}
+			}
+			cur.Annotations[terwayTypes.TrunkOn] = fmt.Sprintf("eni-%d", s.Prefer)
+			if err := cl.Update(ctx, cur); err != nil {
+				fatalf("harness: update node: %v", err)
+			}
+		}
+		c.Trace(name+"daemon wrote trunk=%v rdma=%v flavor=%+v enis=%+v", enableTrunk, enableRdma, flavor, s.ENIs)
+
+		// ---- classification
+		nt := false
+		if s.WantTrunk && !enableTrunk {
+			c.Label("ask-trunk:refused")
+			nt = true
+		}
+		if s.WantRdma > 0 && rdmaSlots < s.WantRdma {
+			c.Label("ask-rdma:refused-or-cut")
+			nt = true
+		}
+		if exclusive {
+			c.Label("mode:exclusive")
+		} else {
+			c.Label("mode:shared")
+		}
+		if enableTrunk && trunkInUse {
+			c.Label("trunk:in-use")
+		} else if enableTrunk {
+			c.Label("trunk:not-ready")
+		}
+		if s.StaleAnno > slots*v4 {
+			c.Label("stale-annotation>limit")
+			nt = true
+		}
+		if slots == 0 {
+			c.Label("primary-only")
+			nt = true
+		}
+		if nt {
+			c.NonTrivial()
+		}
+
+		// ---- 3. controller reconciles again
+		for i := 0; i < s.Rounds; i++ {
+			reconcileOnce(name+"after-daemon", false)
+		}
+		got := &corev1.Node{}
+		if err := cl.Get(ctx, client.ObjectKey{Name: c19NodeName}, got); err != nil {
+			fatalf("get node: %v", err)
+		}
+		c.Trace(name+"node annotations %v allocatable %v capacity %v", got.Annotations, got.Status.Allocatable, got.Status.Capacity)
+
+		annoIP := -1
+		if v, ok := got.Annotations[string(terwayTypes.NormalIPTypeIPs)]; ok {
+			n, err := strconv.Atoi(v)
+			if err != nil {
+				fatalf("annotation %s = %q is not a number", terwayTypes.NormalIPTypeIPs, v)
+			}
+			annoIP = n
+		}
+		quantity := func(name string) (int64, bool) {
+			a, okA := got.Status.Allocatable[corev1.ResourceName(name)]
+			cp, okC := got.Status.Capacity[corev1.ResourceName(name)]
+			if !okA && !okC {
+				return 0, false
+			}
+			v := a.Value()
+			if cp.Value() > v {
+				v = cp.Value()
+			}
+			return v, true
+		}
+
+		if s.LinJun {
+			// no ENISpec semantics for LingJun nodes in this controller: nothing but the
+			// (harness-written) stale annotation may be present
+			if annoIP >= 0 && annoIP != s.StaleAnno {
+				fatalf("LingJun node got max-available-ip = %d", annoIP)
+			}
+			return
+		}
+
+		ipSlots := stdSlots + trunkSlots // interfaces that carry pod IPs in shared mode
+		if exclusive {
+			// one pod per standard secondary interface
+			if annoIP > stdSlots || annoIP > slots {
+				fatalf("exclusive mode: max-available-ip = %d exceeds %d standard slots in the flavor (instance has %d secondary slots)", annoIP, stdSlots, slots)
+			}
+			if q, ok := quantity(deviceplugin.ENIResName); ok {
+				if q < 0 || q > int64(stdSlots) || q > int64(slots) {
+					fatalf("exclusive mode: %s = %d exceeds %d standard slots in the flavor (instance has %d secondary slots)", deviceplugin.ENIResName, q, stdSlots, slots)
+				}
+				c.Label("res:eni")
+			}
+		} else {
+			if annoIP > ipSlots*v4 || annoIP > slots*v4 {
+				fatalf("max-available-ip = %d exceeds %d slots x %d addresses (instance has %d secondary slots)", annoIP, ipSlots, v4, slots)
+			}
+		}
+		if annoIP >= 0 {
+			c.Label("anno:present")
+		} else {
+			c.Label("anno:absent")
+		}
+		if q, ok := quantity(deviceplugin.MemberENIResName); ok {
+			if q < 0 || q > int64(memberRef) {
+				fatalf("%s = %d exceeds the member limit %d of the instance type", deviceplugin.MemberENIResName, q, memberRef)
+			}
+			if q > 0 && (!enableTrunk || exclusive) {
+				c.Label("res:member-eni-unasked") // not an instance limit; visible in the evidence
+			}
+			c.Label("res:member-eni")
 		}
 	}
-	if s.Prefer >= 0 {
+
+	pass("", vecA, true)
+	if s.Resize != nil {
+		// the instance comes back as another type: same instance id, same node object,
+		// new instance-type label (kubelet / cloud-controller-manager republish it)
 		cur := &corev1.Node{}
 		if err := cl.Get(ctx, client.ObjectKey{Name: c19NodeName}, cur); err != nil {
 			c.Fatalf("harness: get node: %v", err)
 		}
-		if cur.Annotations == nil {
-			cur.Annotations = map[string]string{}
-		}
-		cur.Annotations[terwayTypes.TrunkOn] = fmt.Sprintf("eni-%d", s.Prefer)
+		cur.Labels[corev1.LabelInstanceTypeStable] = typeB
 		if err := cl.Update(ctx, cur); err != nil {
-			c.Fatalf("harness: update node: %v", err)
+			c.Fatalf("harness: update node label: %v", err)
 		}
-	}
-	c.Trace("daemon wrote trunk=%v rdma=%v flavor=%+v enis=%+v", enableTrunk, enableRdma, flavor, s.ENIs)
-
-	// ---- classification
-	nt := false
-	if s.WantTrunk && !enableTrunk {
-		c.Label("ask-trunk:refused")
-		nt = true
-	}
-	if s.WantRdma > 0 && rdmaSlots < s.WantRdma {
-		c.Label("ask-rdma:refused-or-cut")
-		nt = true
-	}
-	if exclusive {
-		c.Label("mode:exclusive")
-	} else {
-		c.Label("mode:shared")
-	}
-	if enableTrunk && trunkInUse {
-		c.Label("trunk:in-use")
-	} else if enableTrunk {
-		c.Label("trunk:not-ready")
-	}
-	if s.StaleAnno > slots*v4 {
-		c.Label("stale-annotation>limit")
-		nt = true
-	}
-	if slots == 0 {
-		c.Label("primary-only")
-		nt = true
-	}
-	if nt {
-		c.NonTrivial()
-	}
-
-	// ---- 3. controller reconciles again
-	for i := 0; i < s.Rounds; i++ {
-		reconcileOnce("after-daemon", false)
-	}
-	got := &corev1.Node{}
-	if err := cl.Get(ctx, client.ObjectKey{Name: c19NodeName}, got); err != nil {
-		c.Fatalf("get node: %v", err)
-	}
-	c.Trace("node annotations %v allocatable %v capacity %v", got.Annotations, got.Status.Allocatable, got.Status.Capacity)
-
-	annoIP := -1
-	if v, ok := got.Annotations[string(terwayTypes.NormalIPTypeIPs)]; ok {
-		n, err := strconv.Atoi(v)
-		if err != nil {
-			c.Fatalf("annotation %s = %q is not a number", terwayTypes.NormalIPTypeIPs, v)
+		c.Trace("instance resized in place: %+v -> %+v", vecA, *s.Resize)
+		if (s.Resize.EniQuantity-1)*s.Resize.V4 < (vecA.EniQuantity-1)*vecA.V4 {
+			c.Label("resize:shrinks")
+			c.NonTrivial() // what was advertised for the old type is above the new limits
+		} else {
+			c.Label("resize:grows-or-same")
 		}
-		annoIP = n
-	}
-	quantity := func(name string) (int64, bool) {
-		a, okA := got.Status.Allocatable[corev1.ResourceName(name)]
-		cp, okC := got.Status.Capacity[corev1.ResourceName(name)]
-		if !okA && !okC {
-			return 0, false
-		}
-		v := a.Value()
-		if cp.Value() > v {
-			v = cp.Value()
-		}
-		return v, true
-	}
-
-	if s.LinJun {
-		// no ENISpec semantics for LingJun nodes in this controller: nothing but the
-		// (harness-written) stale annotation may be present
-		if annoIP >= 0 && annoIP != s.StaleAnno {
-			c.Fatalf("LingJun node got max-available-ip = %d", annoIP)
-		}
-		return
-	}
-
-	ipSlots := stdSlots + trunkSlots // interfaces that carry pod IPs in shared mode
-	if exclusive {
-		// one pod per standard secondary interface
-		if annoIP > stdSlots || annoIP > slots {
-			c.Fatalf("exclusive mode: max-available-ip = %d exceeds %d standard slots in the flavor (instance has %d secondary slots)", annoIP, stdSlots, slots)
-		}
-		if q, ok := quantity(deviceplugin.ENIResName); ok {
-			if q < 0 || q > int64(stdSlots) || q > int64(slots) {
-				c.Fatalf("exclusive mode: %s = %d exceeds %d standard slots in the flavor (instance has %d secondary slots)", deviceplugin.ENIResName, q, stdSlots, slots)
-			}
-			c.Label("res:eni")
-		}
-	} else {
-		if annoIP > ipSlots*v4 || annoIP > slots*v4 {
-			c.Fatalf("max-available-ip = %d exceeds %d slots x %d addresses (instance has %d secondary slots)", annoIP, ipSlots, v4, slots)
-		}
-	}
-	if annoIP >= 0 {
-		c.Label("anno:present")
-	} else {
-		c.Label("anno:absent")
-	}
-	if q, ok := quantity(deviceplugin.MemberENIResName); ok {
-		if q < 0 || q > int64(memberRef) {
-			c.Fatalf("%s = %d exceeds the member limit %d of the instance type", deviceplugin.MemberENIResName, q, memberRef)
-		}
-		if q > 0 && (!enableTrunk || exclusive) {
-			c.Label("res:member-eni-unasked") // not an instance limit; visible in the evidence
-		}
-		c.Label("res:member-eni")
+		pass("after resize: ", *s.Resize, false)
 	}
 }
 
